@@ -138,7 +138,41 @@ def sub_nodata(case):
                                         ds.trend.isel(y=1, x=0).values), want, other.tolist(), dtype)
 
 
-SUBS = {"definition": sub_definition, "invariance": sub_invariance, "nodata": sub_nodata}
+def sub_history(case):
+    """One DataArray object: mktrend() is queried, the nodata attribute is set / changed / removed in place, values are overwritten in
+    place, and mktrend() is queried again - every answer must describe the array and its attributes as they are at that moment."""
+    dtype = case["dtype"]
+    nt = case["nt"]
+    vals = np.array(case["pixels"], dtype="float64").astype(dtype)  # (npix, nt)
+    t = pd.date_range("2000-01-01", periods=nt, freq="YS")
+    da = xr.DataArray(vals.T.copy().reshape(nt, vals.shape[0], 1), dims=("time", "y", "x"), coords={"time": t})
+    nodata = None
+    for op in case["ops"]:
+        if op[0] == "set_nodata":
+            nodata = op[1]
+            da.attrs["nodata"] = nodata
+        elif op[0] == "del_nodata":
+            nodata = None
+            da.attrs.pop("nodata", None)
+        elif op[0] == "fill_pixel":
+            px = op[1] % vals.shape[0]
+            v = nodata if nodata is not None else op[2]
+            vals[px, :] = v
+            da.values[:, px, 0] = v
+        elif op[0] == "query":
+            ds = call("mktrend() in a history", lambda: da.hdc.algo.mktrend())
+            for i in range(vals.shape[0]):
+                row = vals[i]
+                got = (float(ds.tau.values[i, 0]), float(ds.pvalue.values[i, 0]), float(ds.slope.values[i, 0]), int(ds.trend.values[i, 0]))
+                if nodata is not None and bool((row == nodata).all()):
+                    req(got == (float(nodata), float(nodata), float(nodata), -2), "mktrend() after the history %s: pixel %d is entirely nodata (%r) but "
+                        "yields %s" % ([o[0] for o in case["ops"]], i, nodata, got), "history all-nodata pixel")
+                else:
+                    want = refs.mk([float(v) for v in row])
+                    _cmp("mktrend() after the history %s pixel %d" % ([o[0] for o in case["ops"]], i), got, want, row.tolist(), dtype)
+
+
+SUBS = {"definition": sub_definition, "invariance": sub_invariance, "nodata": sub_nodata, "history": sub_history}
 
 
 def weak_orderings(n):
@@ -214,6 +248,19 @@ def run(ctx):
     inv = st.builds(lambda c, a, b, cb: dict(c, x=[v / 8 if c["dtype"] == "int16" and False else v for v in c["x"]], a=a, b=b, cbrt=cb),
                     series(ctx.n(60, 200)), st.integers(1, 2), st.integers(-700, 700), st.booleans())
     ctx.given("invariance", inv, ctx.n(400, 5000), fn=f_inv)
+
+    def f_h(case):
+        kinds = [o[0] for o in case["ops"]]
+        rec.case("history", case, nontrivial="query" in kinds and len(kinds) >= 3, cls="ops=%d" % len(kinds))
+        sub_history(case)
+
+    hist = st.integers(3, 10).flatmap(lambda nt: st.builds(
+        lambda dtp, px, ops: {"dtype": dtp, "nt": nt, "pixels": px, "ops": [list(o) for o in ops] + [["query"]]},
+        st.sampled_from(["int16", "float32"]), st.lists(st.lists(st.integers(1, 500), min_size=nt, max_size=nt), min_size=1, max_size=3),
+        st.lists(st.one_of(st.tuples(st.just("query")), st.tuples(st.just("set_nodata"), st.sampled_from([-9999, 0, 255, -1])),
+                           st.tuples(st.just("del_nodata")), st.tuples(st.just("fill_pixel"), st.integers(0, 2), st.integers(600, 900))),
+                 min_size=2, max_size=8)))
+    ctx.given("history", hist, ctx.n(200, 3000), fn=f_h)
 
     def f_nd(case):
         rec.case("nodata", case, nontrivial=True, cls=["dtype:" + case["dtype"]])
